@@ -388,6 +388,19 @@ def fam_gram(tier, rng, policies=False, corrupt=True, trunc=True):
                     ops.append(f"visit witness n {hx(e[:j])}")
             ops.append(f"redb txouts {hx(outs)}")
             ops.append(f"redb tx {hx(t.enc())}")
+            # the stored value is the object parsed from a longer buffer (a transaction inside a block, a list inside a
+            # transaction): its bytes and its equality with the re-read value must not depend on what followed it
+            ops.append(f"redb txouts {hx(outs + _K0700)}")
+            ops.append(f"redb tx {hx(t.enc() + _K99)}")
+            for (v, sc) in t.outs[:1]:
+                ops.append(f"redb txout {hx(struct.pack('<Q', v) + cs(len(sc)) + sc + _K55)}")
+            for (a, v, sc, q) in t.ins[:1]:
+                ops.append(f"redb outpoint {hx(a + struct.pack('<I', v) + _K01)}")
+    # every shape as a stored transaction, exact and followed by other bytes (zero inputs / zero outputs included)
+    for si, tx in enumerate(shapes):
+        if len(tx.enc()) <= 3000:
+            ops.append(f"redb tx {hx(tx.enc())}")
+            ops.append(f"redb tx {hx(tx.enc() + TRAILS[(si + 1) % len(TRAILS)])}")
     # blocks
     pat = Pat(29)
     for ntx in range(0, 4) if tier == "quick" else range(0, 5):
@@ -458,10 +471,21 @@ def fam_bound(tier, rng):
         ops.append(f"visit tx b3 {hx(t.enc())}")
         t2 = Tx(1, [(pat.take(32), 1, body, 0xFFFFFFFE)], [(9, body)], [], 3, False)
         ops.append(f"visit tx n " + hx(t2.enc() + b'\x00'))
+    # every length in the neighbourhood of the two prefix-width thresholds (a width derived from the wrong quantity —
+    # total instead of payload length, say — is wrong only a few bytes away from them)
+    for l in list(range(249, 259)) + list(range(65530, 65541)):
+        body = bytes((i * 7 + l) % 256 for i in range(l))
+        ops.append("visit txout n " + hx(struct.pack("<Q", l) + cs(l) + body + b"\x01"))
+        ops.append("visit txin n " + hx(pat.take(32) + struct.pack("<I", l) + cs(l) + body + struct.pack("<I", 0xFFFFFFFD)))
+        if l not in (252, 253, 254, 65535, 65536):
+            ops.append("visit script n " + hx(cs(l) + body))
+            ops.append("visit witness n " + hx(cs(1) + cs(l) + body))
+        if l % 3 == 0:
+            ops.append("redb txout " + hx(struct.pack("<Q", l) + cs(l) + body))
     # one big element alone / last (a decoder that loses track of its offset at a wide length prefix can still succeed)
     for l in (253, 65536):
         body = bytes((i * 29 + 1) % 256 for i in range(l))
-        for els in ([body], [b"\x05", body], [b"", b"\x06\x07", body]):
+        for els in ([body], [b"\x05", body], [b"", b"\x06\x07", body], [body, body[:253]], [body[:254], b"\x09", body[:300]]):
             w = cs(len(els)) + b"".join(cs(len(e)) + e for e in els)
             ops.append("visit witness n " + hx(w))
             ops.append("visit witness n " + hx(w + b"\x00\x01"))
